@@ -2098,3 +2098,15 @@ mod tests {
         );
     }
 }
+
+// ---- verif hook H2 (cfg delaunay_verif): raw access for fault injection; not compiled otherwise ----
+#[cfg(delaunay_verif)]
+impl<T, U, const D: usize> Vertex<T, U, D>
+where
+    U: DataType,
+{
+    /// verif hook: raw point access.
+    pub fn verif_point_mut(&mut self) -> &mut Point<T, D> {
+        &mut self.point
+    }
+}
